@@ -21,6 +21,8 @@ import CelloProofs.Lemmas.DispNew
 import CelloProofs.Lemmas.DispHeap
 import CelloProofs.Lemmas.DispBorrow
 import CelloProofs.Lemmas.DispId
+import CelloProofs.Lemmas.DispShared
+import Cello.DispatchMsg
 
 namespace Cello.Dispatch
 
@@ -989,5 +991,209 @@ theorem C08_first_triple_only_refuted :
     let es : List Entry := [⟨none, "Show", ⟨0, [true]⟩⟩, ⟨none, "Cmp", ⟨1, [true]⟩⟩]
     declared es "Cmp" = some ⟨1, [true]⟩ ∧ (match es with | e :: _ => if e.name = "Cmp" then some e.inst else none | [] => none) = none := by
   decide
+
+/-! ## extension round: the shared stores of the lookup path, read from the source -/
+
+/-- which machine the current source is: does the by-name pass of Type_Scan compare with a variable of static storage that the
+    lookup path stores to?  (computed from the extracted store list and the extracted strcmp operand) -/
+def sharedNameNow : Bool := sharedNameOf CelloGen.Disp.sharedStores CelloGen.Disp.scanNameOperand
+
+/-- **The stores of the lookup path, as extracted from src/Type.c, are exactly the three the step machine performs**, all of
+    them through a pointer into the type object (header type word, `cls` word of a triple, cache word); no lookup-path function
+    has a `static` local, none stores to a file-scope variable, and the by-name pass compares with a value private to the
+    thread.  (`decide` over the generated list: one more store anywhere in Type_Of / Type_Builtin_Name / Type_Scan /
+    Type_Instance + Type_Cache_Entry / Type_Implements / Type_[Implements_]Method_At_Offset / the public wrappers / any function of
+    Type.c they call — a swap of triples, a `static` scratch variable, a hit counter — breaks the build here.) -/
+theorem C08_shared_stores_current_source :
+    CelloGen.Disp.sharedStores = modelStores ∧ CelloGen.Disp.staticLocals = [] ∧ sharedNameNow = false := by
+  refine ⟨by rfl, by rfl, by decide⟩
+
+/-- **Every step of the machine changes the shared record by its store and by nothing else, and every store of the machine is a
+    store of the source** (`writeOf`: at most one per step; `Wr.source` ∈ the extracted list). -/
+theorem C08_machine_stores (slots : List (Nat × Cls)) (t : TypeRec) (pc : PC) :
+    ((step slots t pc).1 = match writeOf t pc with
+      | none => t
+      | some w => w.apply t) ∧
+    ∀ w, writeOf t pc = some w → w.source ∈ CelloGen.Disp.sharedStores := by
+  refine ⟨step_effect slots t pc, ?_⟩
+  intro w _
+  cases w <;> (simp only [Wr.source]; decide)
+
+/-- **The shared stores are idempotent and answer-preserving**: a thread whose local state is valid (`PCOK`: what it has read
+    so far is consistent with the declaration) stores only what every other thread would store at that location for that
+    class name — the class word of a triple receives a class of THAT triple's name and only where the triple is the declared
+    one, a cache word receives the declared instance of its slot's class — so the invariant "partially warmed but consistent"
+    (`Inv`) survives the store at ANY later moment, the immutable part of the record is untouched, and storing twice is storing once. -/
+theorem C08_shared_stores_idempotent (slots : List (Nat × Cls)) (n : Nat) (hs : SlotsOK slots n)
+    (D : String → Option Inst) (t : TypeRec) (pc : PC) (hp : PCOK D slots t.entries pc)
+    (w : Wr) (hw : writeOf t pc = some w)
+    (t' : TypeRec) (h' : Inv D slots n t') (hsk : t'.entries.map Entry.skel = t.entries.map Entry.skel) :
+    Inv D slots n (w.apply t') ∧ (∀ nm, declared (w.apply t').entries nm = D nm) ∧
+    (w.apply t').entries.map Entry.skel = t'.entries.map Entry.skel ∧ w.apply (w.apply t') = w.apply t' := by
+  have hok : WrOK D slots t.entries w := writeOf_ok hp hw
+  have hok' : WrOK D slots t'.entries w := by
+    cases w with
+    | hdr => trivial
+    | memo pos cls =>
+      obtain ⟨e, he, hn, hd⟩ := hok
+      obtain ⟨e', he', hn', hi'⟩ := skel_getElem? hsk pos he
+      exact ⟨e', he', by rw [hn', hn], by rw [hi', hd]⟩
+    | cache i v => exact hok
+  have sp := Wr.apply_inv hs h' w hok'
+  exact ⟨sp.1, sp.1.decl, sp.2, Wr.apply_idem t' w⟩
+
+/-- **Interleaving theorem for the machine the source is** (`stepG sharedNameNow`: the step machine with the lookup path's
+    static-storage name variable, if it has one).  Any number of threads, any programs of lookups, ANY schedule of their atomic
+    steps, any initial content of the register, from any consistent (cold, warm or partially warmed) record: the shared record
+    stays consistent, every completed lookup of every thread returned what the declaration declares, no thread is stuck.
+    The side condition `sharedNameNow = false` is discharged from the extracted stores (`C08_shared_stores_current_source`);
+    with a shared name variable the statement is false: `C08_shared_name_refuted`. -/
+theorem C08_interleaving_exact (n : Nat) (hs : SlotsOK slotsNow n)
+    (D : String → Option Inst) (t : TypeRec) (h : Inv D slotsNow n t)
+    (progs : List (List (Bool × Cls))) (sched : List Nat) (reg : String) :
+    let g := grunSched sharedNameNow slotsNow { shared := ⟨t, reg⟩, threads := progs.map GThread.new } sched
+    Inv D slotsNow n g.shared.ty ∧ (∀ nm, declared g.shared.ty.entries nm = D nm) ∧
+    g.threads.length = progs.length ∧
+    ∀ th ∈ g.threads, (∀ p ∈ th.log, p.2 = D p.1.name) ∧ th.pc ≠ some (.base .stuck) := by
+  have hb : sharedNameNow = false := C08_shared_stores_current_source.2.2
+  have hc := C08_concurrent slotsNow n hs D t h progs sched
+  intro g
+  have hg : g = (runSched slotsNow { shared := t, threads := progs.map Thread.new } sched).lift reg := by
+    show grunSched sharedNameNow slotsNow _ sched = _
+    rw [hb, lift_new]
+    exact grunSched_false slotsNow reg sched { shared := t, threads := progs.map Thread.new }
+  rw [hg]
+  refine ⟨hc.1, hc.2.1, by simpa [Sys.lift] using hc.2.2.1, ?_⟩
+  intro th hth
+  simp only [Sys.lift, List.mem_map] at hth
+  obtain ⟨th0, hth0, rfl⟩ := hth
+  have h0 := hc.2.2.2 th0 hth0
+  refine ⟨h0.1, ?_⟩
+  intro hpc
+  apply h0.2
+  cases hp : th0.pc with
+  | none => simp [Thread.lift, hp] at hpc
+  | some pc =>
+    simp only [Thread.lift, hp, Option.map_some, Option.some.injEq, GPC.base.injEq] at hpc
+    rw [hpc]
+
+/-- the statement of `C08_interleaving_exact` for a machine chosen by hand -/
+def C08_interleaving_statement (sharedName : Bool) : Prop :=
+  ∀ (t : TypeRec), invb slotsNow t = true → ∀ (progs : List (List (Bool × Cls))) (sched : List Nat) (reg : String),
+    ∀ th ∈ (grunSched sharedName slotsNow { shared := ⟨t, reg⟩, threads := progs.map GThread.new } sched).threads,
+      ∀ p ∈ th.log, p.2 = declared t.entries p.1.name
+
+/-- **Refuted** for the machine with a shared name variable (what a `static const char* cls_name` hoisted out of the by-name
+    loop makes of Type_Scan): two threads, cold record `Show, Cmp`; thread 0 asks for `Show` and has just stored "Show" into
+    the variable when thread 1, asking for `Cmp`, stores "Cmp"; thread 0's by-name pass now compares with "Cmp", answers with
+    the `Cmp` instance for `Show`, and memoises the class `Show` in the `Cmp` triple, so that every later lookup of `Show`
+    by anyone — warm, single-threaded — answers with the `Cmp` instance too. Sequentially (one thread at a time) this machine
+    is exact: the store is not idempotent across classes, and only the interleaving shows it. -/
+theorem C08_shared_name_refuted : ¬ C08_interleaving_statement true := by
+  intro hst
+  have := hst (mkType CelloGen.Disp.cacheNum true [("Show", ⟨0, [true]⟩), ("Cmp", ⟨1, [true]⟩)]) (by decide +kernel)
+    [[(false, ⟨0, "Show"⟩), (false, ⟨0, "Show"⟩)], [(false, ⟨0, "Cmp"⟩)]]
+    (List.replicate 7 0 ++ List.replicate 7 1 ++ List.replicate 20 0) ""
+  revert this
+  decide +kernel
+
+/-- the same schedule on the machine of the current source answers `Show` with the `Show` instance both times (non-vacuity of
+    `C08_interleaving_exact`: the threads do complete lookups under this schedule) -/
+example :
+    let t := mkType CelloGen.Disp.cacheNum true [("Show", ⟨0, [true]⟩), ("Cmp", ⟨1, [true]⟩)]
+    let g := grunSched sharedNameNow slotsNow { shared := ⟨t, ""⟩, threads :=
+      [[(false, ⟨0, "Show"⟩), (false, ⟨0, "Show"⟩)], [(false, ⟨0, "Cmp"⟩)]].map GThread.new }
+      (List.replicate 7 0 ++ List.replicate 7 1 ++ List.replicate 20 0)
+    g.threads.map (fun th => th.log.map (fun p => p.2.map (·.id))) = [[some 0, some 0], []] := by
+  decide +kernel
+
+/-- … and on the machine with the shared name variable: `Show` answered with instance 1 (the `Cmp` instance), cold and warm -/
+example :
+    let t := mkType CelloGen.Disp.cacheNum true [("Show", ⟨0, [true]⟩), ("Cmp", ⟨1, [true]⟩)]
+    let g := grunSched true slotsNow { shared := ⟨t, ""⟩, threads :=
+      [[(false, ⟨0, "Show"⟩), (false, ⟨0, "Show"⟩)], [(false, ⟨0, "Cmp"⟩)]].map GThread.new }
+      (List.replicate 7 0 ++ List.replicate 7 1 ++ List.replicate 20 0)
+    g.threads.map (fun th => th.log.map (fun p => p.2.map (·.id))) = [[some 1, some 1], []] ∧
+    g.shared.ty.entries.map (fun e => e.memo.map (·.name)) = [none, some "Show"] := by
+  decide +kernel
+
+/-! ## extension round: the text of the ClassError, the cells of `Type_Builtin_Name` / `Type_Builtin_Size` -/
+
+/-- **The ClassError texts of the current source** (formats and argument lists of the two `throw` sites of
+    Type_Method_At_Offset, extracted each run): for every type name, class name and member name, an absent class is reported as
+    `Type 'T' does not implement class 'C'`, an empty member as `Type 'T' implements class 'C' but not the method 'M' required`,
+    both as ClassError.  (A changed format, a swapped or dropped argument, another exception class break the build here.) -/
+theorem C08_classerror_text (tname cname mname : String) :
+    methodAtMsg CelloGen.Disp.methodAtThrows 0 tname cname mname =
+      some ("ClassError", "Type '" ++ tname ++ ("' does not implement class '" ++ cname ++ "'")) ∧
+    methodAtMsg CelloGen.Disp.methodAtThrows 1 tname cname mname =
+      some ("ClassError", "Type '" ++ tname ++ ("' implements class '" ++ cname ++ ("' but not the method '" ++ mname ++ "' required"))) ∧
+    CelloGen.Disp.methodAtThrows.length = 2 := by
+  refine ⟨?_, ?_, by rfl⟩ <;>
+    simp [methodAtMsg, CelloGen.Disp.methodAtThrows, render, showArg]
+
+/-- **`Type_Method_At_Offset` with its texts follows `methodAt`** (the function the lookup theorems are about): same new
+    record, the instance where `methodAt` returns it, an exception with one of the two texts exactly where `methodAt` raises
+    (for types and classes other than Terminal: KF-C08-terminal-message), undefined exactly where `methodAt` is. -/
+theorem C08_method_text_refines (slots : List (Nat × Cls)) (t : TypeRec) (tname : String) (cls : Cls) (k : Nat) (mname : String) :
+    (methodAtText CelloGen.Disp.methodAtThrows slots t tname cls k mname).1 = (methodAt slots t cls k).1 ∧
+    match (methodAt slots t cls k).2 with
+    | .ok i => (methodAtText CelloGen.Disp.methodAtThrows slots t tname cls k mname).2 = .ok i
+    | .raised _ => ∃ m, (methodAtText CelloGen.Disp.methodAtThrows slots t tname cls k mname).2 = .raised "ClassError" m ∧
+        (m = "Type '" ++ tname ++ ("' does not implement class '" ++ cls.name ++ "'") ∨
+         m = "Type '" ++ tname ++ ("' implements class '" ++ cls.name ++ ("' but not the method '" ++ mname ++ "' required")))
+    | .ub => (methodAtText CelloGen.Disp.methodAtThrows slots t tname cls k mname).2 = .ub := by
+  have h0 := (C08_classerror_text tname cls.name mname).1
+  have h1 := (C08_classerror_text tname cls.name mname).2.1
+  simp only [methodAtText, methodAt, h0, h1]
+  rcases h : instanceOf slots t cls with ⟨t1, r⟩
+  cases r with
+  | ok v =>
+    cases v with
+    | none => exact ⟨rfl, _, rfl, Or.inl rfl⟩
+    | some inst =>
+      simp only
+      cases hm : memberAt inst k with
+      | ok b =>
+        cases b with
+        | true => exact ⟨rfl, rfl⟩
+        | false => exact ⟨rfl, _, rfl, Or.inr rfl⟩
+      | raised e => simp [memberAt] at hm; split at hm <;> simp at hm
+      | ub => exact ⟨rfl, rfl⟩
+  | raised e =>
+    exfalso
+    unfold instanceOf at h
+    split at h
+    · split at h
+      · split at h <;> simp at h
+      · simp at h
+    · simp at h
+  | ub => exact ⟨rfl, rfl⟩
+
+/-- **`Type_Builtin_Name` / `Type_Builtin_Size` read the cells `Type_New` writes**: the index expressions of the two helpers
+    (extracted each run) are `t[(CELLO_CACHE_NUM / 3)+0].inst` and `…+1`; on the words of ANY type object of the model (cold,
+    warm, any remains after the terminator) they read the `__Name` string and the `__Size` number — the words `Type_New`
+    stores (`C08_type_new_any_storage`: the storage after Type_New IS such a `toRaw`). -/
+theorem C08_builtin_cells (s : Store) (hc : s.trec.cache.length = CelloGen.Disp.cacheNum) :
+    builtinWord CelloGen.Disp.cacheNum CelloGen.Disp.builtinNameCell s.toRaw = some (.str s.name) ∧
+    builtinWord CelloGen.Disp.cacheNum CelloGen.Disp.builtinSizeCell s.toRaw = some (.num s.size) := by
+  have hl : (s.trec.cache.map Word.ofInst).length = 18 := by simp [hc, CelloGen.Disp.cacheNum]
+  constructor
+  · simp only [builtinWord, CelloGen.Disp.builtinNameCell, CelloGen.Disp.cacheNum, Store.toRaw]
+    rw [List.getElem?_append_right (by omega)]
+    simp [hl]
+  · simp only [builtinWord, CelloGen.Disp.builtinSizeCell, CelloGen.Disp.cacheNum, Store.toRaw]
+    rw [List.getElem?_append_right (by omega)]
+    simp [hl]
+
+/-- non-vacuity: on a cold `Show, Cmp` record named Alpha, member 1 of `Show` is empty and `Hash` is absent -/
+example :
+    let t := mkType CelloGen.Disp.cacheNum true [("Show", ⟨0, [true, false]⟩), ("Cmp", ⟨1, [true]⟩)]
+    (methodAtText CelloGen.Disp.methodAtThrows slotsNow t "Alpha" ⟨0, "Show"⟩ 1 "look").2 =
+      .raised "ClassError" "Type 'Alpha' implements class 'Show' but not the method 'look' required" ∧
+    (methodAtText CelloGen.Disp.methodAtThrows slotsNow t "Alpha" ⟨0, "Hash"⟩ 0 "hash").2 =
+      .raised "ClassError" "Type 'Alpha' does not implement class 'Hash'" ∧
+    (methodAtText CelloGen.Disp.methodAtThrows slotsNow t "Alpha" ⟨0, "Cmp"⟩ 0 "cmp").2 = .ok ⟨1, [true]⟩ := by
+  decide +kernel
 
 end Cello.Dispatch
